@@ -24,6 +24,7 @@ structure Field where
   tl2bit : Option Nat            -- position in the hidden TL2 presence mask
   isBit : Bool                   -- `x:fm.b?true` / `bit`: no storage, presence only
   natArgs : List NatArg
+  omitted : Bool := false        -- TL2 `_name:T`: no storage, skipped by readers (gengo `Field.IsTL2Omitted`)
   deriving Repr, Inhabited
 
 structure StructD where
@@ -133,9 +134,11 @@ def pField : P Field := fun ts => do
       let (b, ts) ← pNat ts
       pure (some (a, b), ts))
   let (tl2bit, ts) ← pOptNat ts
-  let (isBit, ts) ← pBool ts
+  -- flags token: bit 0 = isBit, bit 1 = TL2-omitted field (older producers send only "0"/"1")
+  let (fl, ts) ← pNat ts
   let (na, ts) ← pCounted pNatArg ts
-  pure ({ name := if name == "_" then "" else name, ty, bare, mask, tl2bit, isBit, natArgs := na }, ts)
+  pure ({ name := if name == "_" then "" else name, ty, bare, mask, tl2bit, isBit := fl % 2 == 1, natArgs := na,
+          omitted := fl / 2 % 2 == 1 }, ts)
 
 def flag (f : Nat) (b : Nat) : Bool := (f / b) % 2 == 1
 
